@@ -80,8 +80,13 @@ def run(ctx):
                     col = [rw[oi] for rw in rows]
 
                     def keyf(c):
+                        # numbers (integers, and the fractions AVG / variances give) by value, anything else as text
                         try:
                             return (0, int(c))
+                        except ValueError:
+                            pass
+                        try:
+                            return (0, float(c))
                         except ValueError:
                             return (1, c)
                     ks = [keyf(c) for c in col]
